@@ -13,8 +13,10 @@ type (
 	Uint32         = atomic.Uint32
 	Value          = atomic.Value
 	Bool           = atomic.Bool
-	Pointer[T any] = atomic.Pointer[T]
 )
+
+// Pointer passes through (generic aliases need go1.23 language level).
+type Pointer[T any] struct{ atomic.Pointer[T] }
 
 //go:norace
 func pt(obj any) { vs.PointOp(vs.OpAtomic, obj) }
